@@ -2,6 +2,10 @@ import SpoxModel.Model.MLInfer
 import SpoxModel.Model.RtShape
 import SpoxModel.Model.ScanRun
 import SpoxModel.Lemmas.MLShape
+import SpoxModel.Model.IfInfer
+import SpoxModel.Lemmas.IfJoin
+import SpoxModel.Model.ScanState
+import SpoxModel.Lemmas.ScanState
 import SpoxModel.Generated.MLOverrides
 /-!
 # C06 — reported types are sound: runtime values always conform to them
@@ -512,6 +516,101 @@ theorem refines_imp_accepted : ∀ (as ds : List Dim),
     refine ⟨?_, refines_imp_accepted as ds hall.2 (by simpa using hl)⟩
     cases d <;> cases a <;> simp_all [refinesDim, compatDim]
 
+/-! ## If (round 10) — the reported result types are the JOIN of the two branches' result types
+
+`inferIf` (Model/IfInfer.lean) is what `op.if_` reports as a function of the result types of its two
+branches (spox's dummy typed subgraphs + ONNX's `If` rule + `unk__` stripping; compared with the real
+constructor of every opset module on every run). -/
+
+/-- **Soundness of the types reported for `If`**: whichever branch the condition selects, for any number
+    of results, any ranks, any sizes of unknown dims — if the values of the branch that RUNS conform to
+    the types of that branch's result Vars, the results of the `If` conform to the reported types.
+    (Nothing is assumed about the branch that does not run.) -/
+theorem if_sound (T E : List ITy) (outs : List ITy) (c : Bool) (vt ve : List RtVal)
+    (h : inferIf T E = .ok outs)
+    (ht : c = true → conformsAll vt T = true) (he : c = false → conformsAll ve E = true) :
+    conformsAll (ifRun c vt ve) outs = true := by
+  unfold inferIf at h
+  cases hT : allTyped T with
+  | none => simp [hT] at h
+  | some t =>
+    cases hE : allTyped E with
+    | none => simp [hT, hE] at h
+    | some e =>
+      simp only [hT, hE] at h
+      split at h
+      · simp at h
+      · cases hj : joinAll t e with
+        | none => simp [hj] at h
+        | some js =>
+          simp only [hj, Res.ok.injEq] at h
+          subst h
+          have hTt : T = t.map some := allTyped_eq_map hT
+          have hEe : E = e.map some := allTyped_eq_map hE
+          have hc := conformsAll_joinAll
+          cases c with
+          | true => exact (hc vt t e js hj).1 (hTt ▸ ht rfl)
+          | false => exact (hc ve t e js hj).2 (hEe ▸ he rfl)
+
+/-- The reported type is an upper bound of both branch types in the `refines` order
+    (`refines_sound`: every value of the finer type is a value of the coarser one) … -/
+theorem if_join_upper (t e j : Ty) (h : joinTy t e = some j) : refines t j = true ∧ refines e j = true :=
+  joinTy_upper t e j h
+
+/-- … and the LEAST one: every type that is sound for both branches is refined by the reported type and
+    the join exists (no spurious `InferenceError`, nothing forgotten that both branches guarantee —
+    the converse of `if_sound` at the level of types). -/
+theorem if_join_least (t e u : Ty) (ht : refines t u = true) (he : refines e u = true) :
+    ∃ j, joinTy t e = some j ∧ refines j u = true :=
+  joinTy_least t e u ht he
+
+/-- The reported list has one type per result of the branches. -/
+theorem if_arity (T E outs : List ITy) (h : inferIf T E = .ok outs) :
+    outs.length = T.length ∧ outs.length = E.length ∧ outs ≠ [] := by
+  unfold inferIf at h
+  cases hT : allTyped T with
+  | none => simp [hT] at h
+  | some t =>
+    cases hE : allTyped E with
+    | none => simp [hT, hE] at h
+    | some e =>
+      simp only [hT, hE] at h
+      split at h
+      · simp at h
+      · rename_i hne
+        cases hj : joinAll t e with
+        | none => simp [hj] at h
+        | some js =>
+          simp only [hj, Res.ok.injEq] at h
+          subst h
+          have hl := joinAll_length t e js hj
+          rw [allTyped_eq_map hT, allTyped_eq_map hE]
+          simp only [List.length_map]
+          refine ⟨hl.1, hl.2, ?_⟩
+          intro hnil
+          have : js = [] := by simpa using hnil
+          subst this
+          have h1 : t = [] := by simpa using hl.1.symm
+          have h2 : e = [] := by simpa using hl.2.symm
+          subst h1; subst h2
+          simp at hne
+
+/-- Why a dim that only ONE branch reports as a constant must be forgotten (and what a mutant that keeps
+    the then-branch's dims gets wrong): the else-branch value `(5,)` does not conform to `f32[2]`. -/
+theorem if_keep_then_dims_counterexample :
+    ∃ (T E : List ITy) (ve : List RtVal), conformsAll ve E = true ∧
+      inferIf T E = .ok [tensor .f32 [.anon]] ∧ conformsAll (ifRun false [] ve) T = false :=
+  ⟨[tensor .f32 [.const 2]], [tensor .f32 [.named "N"]], [⟨.f32, [5]⟩], by decide, by decide, by decide⟩
+
+example : inferIf [tensor .f32 [.const 2, .named "N"], tensor .i64 [.const 1]]
+    [tensor .f32 [.const 3, .named "N"], some ⟨.i64, none⟩]
+    = .ok [tensor .f32 [.anon, .named "N"], some ⟨.i64, none⟩] := by decide
+example : inferIf [tensor .f32 [.const 2]] [tensor .f32 [.const 2, .const 3]] = .ok [some ⟨.f32, none⟩] := by decide
+example : inferIf [tensor .f32 [.const 2]] [tensor .i64 [.const 2]] = .err .inference := by decide
+example : inferIf [none] [tensor .i64 [.const 2]] = .err .typeErr := by decide
+example : inferIf [] [] = .err .inference := by decide
+example : conformsAll (ifRun false [⟨.f32, [2, 4]⟩] [⟨.f32, [3, 4]⟩]) [tensor .f32 [.anon, .named "N"]] = true := by decide
+
 /-! ## Loop -/
 
 /-- Soundness of a Loop inference routine `inf` for the carried outputs, for declared argument /
@@ -986,6 +1085,97 @@ example : scanRun { inAxes := [-2], outAxes := [-1, 1] } (fun _ st sl => some (s
 example : scanOutTy (-1) (.const 3) ⟨.f32, some [.const 2, .named "N"]⟩ = some ⟨.f32, some [.const 2, .named "N", .const 3]⟩ := by decide
 example : scanSliceTy (-2) ⟨.f32, some [.const 2, .const 3, .const 4]⟩ = some (.const 3, ⟨.f32, some [.const 2, .const 4]⟩) := by decide
 example : scanRun {} (fun _ st sl => some (st, sl)) 1 [] [⟨.f32, [0, 4]⟩] = none := by decide
+
+/-! ## Scan — final-state outputs (round 10)
+
+`scanStateTy` is the type `op.scan` reports for a final-state output (initial state's type merged with the
+body's result type); `guardBody` is onnxruntime's loop-state rule (a body that returns a state of another
+element type / shape fails the run). Both are compared with the real code / the runtime on every run. -/
+
+/-- Under the runtime's loop-state rule a completed `Scan` run — any scan length (zero included), any
+    number of scan inputs / outputs, any axes — ends in its initial states. -/
+theorem scan_state_unchanged (cfg : ScanCfg) (body : ScanBody) (k : Nat) (states xs fin outs : List RtVal)
+    (hrun : scanRun cfg (guardBody body) k states xs = some (fin, outs)) : fin = states := by
+  unfold scanRun at hrun
+  split at hrun
+  · simp at hrun
+  · split at hrun
+    · simp at hrun
+    · split at hrun
+      · simp at hrun
+      · rename_i fin' rows hit
+        split at hrun
+        · simp at hrun
+        · simp only [Option.some.injEq, Prod.mk.injEq] at hrun
+          rw [← hrun.1]
+          exact scanIter_guard_states body _ _ 0 states fin' rows hit
+
+/-- **Soundness of the reported final-state types, every scan length ≥ 1.** `S0` = types of the initial
+    states, `R` = the body's declared result types for the states, `U` = the reported types. If the initial
+    states conform to `S0` and the body respects its declared result types (`hbody`), the final states of
+    every completed run with at least one iteration conform to `U` — by invariant over the iterations, no
+    bound on their number. -/
+theorem scan_state_sound (body : ScanBody) (slices : List RtVal) (S0 R U : List Ty) (n t : Nat)
+    (states fin : List RtVal) (rows : List (List RtVal))
+    (hU : scanStateTys S0 R = some U)
+    (h0 : conformsAll states (S0.map some) = true)
+    (hbody : ∀ t st sl st' row, body t st sl = some (st', row) → conformsAll st' (R.map some) = true)
+    (hrun : scanIter (guardBody body) slices (n + 1) t states = some (fin, rows)) :
+    conformsAll fin (U.map some) = true := by
+  have hfin := scanIter_guard_states body slices (n + 1) t states fin rows hrun
+  obtain ⟨row, hfirst⟩ := scanIter_guard_first body slices n t states fin rows hrun
+  subst hfin
+  exact scanStateTys_sound fin S0 R U hU h0 (hbody t fin slices fin row hfirst)
+
+/-- The same for `scanRun` with at least one scan output (`0 < k`; such a run has at least one iteration,
+    because a zero-length scan axis has no rows to shape the scan outputs from). -/
+theorem scan_state_output_sound (cfg : ScanCfg) (body : ScanBody) (k : Nat) (S0 R U : List Ty)
+    (states xs fin outs : List RtVal) (hk : 0 < k)
+    (hU : scanStateTys S0 R = some U)
+    (h0 : conformsAll states (S0.map some) = true)
+    (hbody : ∀ t st sl st' row, body t st sl = some (st', row) → conformsAll st' (R.map some) = true)
+    (hrun : scanRun cfg (guardBody body) k states xs = some (fin, outs)) :
+    conformsAll fin (U.map some) = true := by
+  unfold scanRun at hrun
+  split at hrun
+  · simp at hrun
+  · split at hrun
+    · simp at hrun
+    · rename_i sl _ n _
+      split at hrun
+      · simp at hrun
+      · rename_i fin' rows hit
+        split at hrun
+        · simp at hrun
+        · rename_i outs' hall
+          simp only [Option.some.injEq, Prod.mk.injEq] at hrun
+          rw [← hrun.1]
+          cases n with
+          | succ m => exact scan_state_sound body _ S0 R U m 0 states fin' rows hU h0 hbody hit
+          | zero =>
+            exfalso
+            obtain ⟨k', rfl⟩ : ∃ k', k = k' + 1 := ⟨k - 1, by omega⟩
+            simp only [scanIter, Option.some.injEq, Prod.mk.injEq] at hit
+            rw [← hit.2] at hall
+            simp [List.range_succ_eq_map, allSome, stackAtN, column, stackAt] at hall
+
+/-- Without the runtime's loop-state rule the reported type would be unsound (why `guardBody` is part of the
+    runtime model and validated against onnxruntime): initial state `f32[3]`, body result declared `f32[N]`
+    — reported `f32[3]` — and a body that halves the state. -/
+theorem scan_state_needs_runtime_rule_counterexample :
+    scanStateTy ⟨.f32, some [.const 3]⟩ ⟨.f32, some [.named "N"]⟩ = some ⟨.f32, some [.const 3]⟩ ∧
+    ∃ fin rows, scanIter (fun _ _ sl => some ([⟨.f32, [2]⟩], sl)) [] 1 0 [⟨.f32, [3]⟩] = some (fin, rows) ∧
+      conformsAll fin [tensor .f32 [.const 3]] = false ∧
+      scanIter (guardBody (fun _ _ sl => some ([⟨.f32, [2]⟩], sl))) [] 1 0 [⟨.f32, [3]⟩] = none := by
+  refine ⟨by decide, [⟨.f32, [2]⟩], [[]], by decide, by decide, by decide⟩
+
+example : scanStateTy ⟨.f32, some [.const 2, .named "N"]⟩ ⟨.f32, some [.anon, .named "M"]⟩
+    = some ⟨.f32, some [.const 2, .named "N"]⟩ := by decide
+example : scanStateTy ⟨.f32, some [.const 3]⟩ ⟨.f32, some [.const 4]⟩ = none := by decide
+example : scanStateTy ⟨.f32, none⟩ ⟨.f32, some [.const 3]⟩ = some ⟨.f32, some [.const 3]⟩ := by decide
+example : scanRun {} (guardBody (fun _ st sl => some (st, sl))) 1 [⟨.f32, [3]⟩] [⟨.f32, [2, 4]⟩]
+    = some ([⟨.f32, [3]⟩], [⟨.f32, [2, 4]⟩]) := by decide
+
 
 /-- No modelled routine turns a non-tensor input into a tensor claim: it raises, or (Binarizer,
     Normalizer) hands the non-tensor type through — for which no runtime value exists. -/
